@@ -417,6 +417,33 @@ static void mode_strref(const Args& a, bool thorough) {
 }
 
 // ------------------------------------------------------------------------------------------------------------------
+// every half-precision value (thorough; quick: every 64th bit pattern and both neighbours of every exponent boundary)
+static MV half_case(uint16_t h, int f) {
+    MV v = MV::arr(); v.a.push_back(MV::half(h));
+    if (f == BSON) { MV o = MV::obj(); o.o.emplace_back("k", v); return o; }
+    return v;
+}
+static void mode_halves(const Args& a, bool thorough) {
+    bool want_ref = ctx().emit_ref;
+    size_t idx = 0;
+    for (uint32_t h = 0; h <= 0xffff; ++h) {
+        uint32_t low = h & 0x3ff;
+        if (!thorough && !((h & 63) == 0 || low <= 1 || low >= 0x3fe)) continue;
+        if (int(idx++ % size_t(a.nslices)) != a.slice) continue;
+        char id[16]; snprintf(id, sizeof id, "h:%04x", h);
+        for (int f = 0; f < NFMT; ++f) {
+            MV v = half_case(uint16_t(h), f);
+            ctx().emit_ref = want_ref && f == CBOR;
+            run_case("halves", f, E_JSON, Opts(), id, v);
+            ctx().emit_ref = false;
+            run_case("halves", f, E_SDEF, Opts(), id, v);
+        }
+        if (idx % 1001 == 1) out().sample(std::string("halves ") + id);
+    }
+    ctx().emit_ref = want_ref;
+}
+
+// ------------------------------------------------------------------------------------------------------------------
 static void replay(const std::string& sig) {
     auto p = split(sig, '|');      // <mode>|<fmt>|<entry>|<opts>|<caseid>|<class>
     if (p.size() < 5) return;
@@ -435,6 +462,7 @@ static void replay(const std::string& sig) {
     }
     else if (mode == "counts") { ok = count_value(id, v); if (ok && f == BSON && v.k != MV::Obj) { MV w = MV::obj(); w.o.emplace_back("r", v); v = w; } }
     else if (mode == "depth") ok = depth_value(id, v);
+    else if (mode == "halves") { v = half_case(uint16_t(strtoul(id.c_str() + 2, nullptr, 16)), f); ok = id.size() == 6; }
     else if (mode == "strref") { ok = strref_value(id, v); if (ok && f == BSON && v.k != MV::Obj) { MV w = MV::obj(); w.o.emplace_back("r", v); v = w; } }
     if (!ok) { out().error("replay: cannot rebuild case " + sig); return; }
     run_case(mode, f, e, o, id, v);
@@ -453,6 +481,7 @@ int main(int argc, char** argv) {
     else if (mode == "counts") mode_counts(a, thorough);
     else if (mode == "depth") mode_depth(a);
     else if (mode == "strref") mode_strref(a, thorough);
+    else if (mode == "halves") mode_halves(a, thorough);
     else if (mode == "typed") run_typed(a);
     else { out().error("unknown mode " + mode); out().flush(); return 0; }
     out().count("evaluations", ctx().eval);
